@@ -620,7 +620,7 @@ mutual
     | .call name args =>
       match V.call with
       | some f => do
-        let vals ← if args.length > 0 then evalArgsLoop ifd V args 0 (List.replicate args.length .nil) else pure []
+        let vals ← (if args.length > 0 then evalArgsLoop ifd V args 0 (List.replicate args.length .nil) else pure [])
         pure ((f name vals).getD .nil)
       | none => .ok .nil
     | .bool b => .ok (.bool b)
@@ -758,7 +758,7 @@ mutual
       let r' ← reduce V r
       reduceBinary A S (V.zone.getD 0) tok l' r'
     | .call name args => do
-      let args' ← if args.length > 0 then reduceArgsLoop V args 0 (List.replicate args.length .nil) else pure []
+      let args' ← (if args.length > 0 then reduceArgsLoop V args 0 (List.replicate args.length .nil) else pure [])
       if args'.all RExpr.isLiteral then
         match V.call with
         | some f => do
@@ -799,5 +799,34 @@ end
 /-- The argument loop of `evalCallExprType`; `evalType` is `v.EvalType` (`.err` = its error). -/
 def evalCallArgTypes (evalType : Expr → OpRes DataType) (args : List Expr) : OpRes (List DataType) :=
   makeAndFill sEvalTypeArgs DataType.Unknown evalType args
+
+/-! ## Representation invariant of `int64`
+
+The model writes Go's `int64` as `Int`. The guard `rhs == 0` in front of `lhs / uint64(rhs)` is a
+guard for the divisor only because `rhs` is an `int64`; the theorems about `Eval` therefore ask that
+the integers of the expression and the integers the valuer hands out are `int64` values. -/
+
+/-- An `int64` value lies in the `int64` range. -/
+def int64Ok {F : Type} : Value F → Prop
+  | .int i => minInt64 ≤ i ∧ i ≤ maxInt64
+  | _ => True
+
+mutual
+  /-- Every integer literal of the expression is an `int64`. -/
+  def intsOk {F : Type} : RExpr F → Bool
+    | .binary _ l r => intsOk l && intsOk r
+    | .paren e => intsOk e
+    | .call _ args => argsIntsOk args
+    | .int v => decide (minInt64 ≤ v ∧ v ≤ maxInt64)
+    | _ => true
+  def argsIntsOk {F : Type} : List (RExpr F) → Bool
+    | [] => true
+    | a :: rest => intsOk a && argsIntsOk rest
+end
+
+/-- Every integer the valuer returns (for a variable or a call) is an `int64`. -/
+def valuerIntsOk {F : Type} (V : Valuer F) : Prop :=
+  (∀ key v, V.value key = some v → int64Ok v) ∧
+  (∀ f, V.call = some f → ∀ name args v, f name args = some v → int64Ok v)
 
 end InfluxQL.Checked
